@@ -23,6 +23,21 @@
 //!     Every route is run on its own machine (same ROM image, different entry point / host events) with single
 //!     steps until PC == join_pc (at most `cap` steps); the full machine state is reported there ("join"), then
 //!     `tail` more single steps are run with an observation after each.
+//!
+//!   machine.c07_entry {"cases":[case..]}  execution entry point x earlier use of the crate's async machinery
+//!     case = {"base":scenario, "entry":{"kind":"step"|"async","slice":k,"parts":[n..]}, "history":[op..]}
+//!     The probe (fresh machine from `base`, driven through the entry point, one call per part, observation
+//!     and call result after every call) is run twice, each time on a brand-new thread (fresh thread-locals,
+//!     joined before the verb returns): "ref" with nothing before it, "sub" after the history ops
+//!       ["block_on_display",period,frames,ev]   block_on(AsyncDisplayTask::new(period, ev).run_frames(frames))
+//!       ["block_on_sleep",cycles]               block_on(sleep_cycles(cycles))
+//!       ["block_on_timer",cycles]               block_on(AsyncTimerKeyboardTask(another machine).run_for(cycles))
+//!       ["driver",clock,[task..],[budget..]]    AsyncDriver::with_clock + spawn + run_for per budget, then dropped
+//!              task = ["display",period,frames,ev] | ["cpu",n] | ["timer",cycles]   (own machine from `base`)
+//!       ["runner",slice,[n..]]                  earlier AsyncRuntimeRunner on another machine from `base`, dropped
+//!       ["step",n]                              earlier CoreRuntime::step(n) on another machine from `base`
+//!     ev = -1 -> DriverEvent::MaxCycles, otherwise DriverEvent::User(ev).
+//!     -> {"ref":run,"sub":run,"hist":[note..],"err"}   run = {"calls":[{"res":..,"obs":..}..]}
 use super::{create, Machine};
 use crate::util::{get_u32, get_u64};
 use sc62015_core::llama::opcodes::RegName;
@@ -422,11 +437,246 @@ fn conv_one(case: &Value) -> Value {
     json!({"routes": out, "err": null})
 }
 
+// ------------------------------------------------------------------------------------------------
+// entry point x earlier async-machinery use on the thread
+
+type SharedRt = std::rc::Rc<std::cell::RefCell<sc62015_core::CoreRuntime>>;
+
+fn entry_obs(m: &Machine) -> Value {
+    let mut o = m.observe();
+    o["imem"] = json!(hex(&imem_bytes(m)));
+    o["ext"] = json!(fnv(m.rt.memory.external_slice()));
+    o
+}
+
+/// Moves the machine's runtime into the Rc<RefCell<..>> the async API wants; `f` gets the shared handle;
+/// afterwards the runtime is moved back so that the ordinary observation code can be used.
+fn with_shared<T>(m: Machine, f: impl FnOnce(&SharedRt) -> T) -> Result<(Machine, T), String> {
+    let Machine { rt, win_lo, win_hi, im_lo, im_hi } = m;
+    let rc: SharedRt = std::rc::Rc::new(std::cell::RefCell::new(rt));
+    let out = f(&rc);
+    let rt = std::rc::Rc::try_unwrap(rc)
+        .map_err(|_| "runtime still shared after the run".to_string())?
+        .into_inner();
+    Ok((Machine { rt, win_lo, win_hi, im_lo, im_hi }, out))
+}
+
+fn driver_event(v: Option<&Value>) -> sc62015_core::async_driver::DriverEvent {
+    use sc62015_core::async_driver::DriverEvent;
+    match v.and_then(|v| v.as_i64()).unwrap_or(-1) {
+        n if n < 0 => DriverEvent::MaxCycles,
+        n => DriverEvent::User(n as u32),
+    }
+}
+
+fn entry_probe(base: &Value, entry: &Value) -> Result<Value, String> {
+    use sc62015_core::AsyncRuntimeRunner;
+    let mut m = create(base)?;
+    let kind = entry.get("kind").and_then(|v| v.as_str()).unwrap_or("step").to_string();
+    let parts: Vec<usize> = entry
+        .get("parts")
+        .and_then(|v| v.as_array())
+        .map(|a| a.iter().map(|x| u(x) as usize).collect())
+        .unwrap_or_default();
+    let slice = get_u64(entry, "slice", 1);
+    let mut calls: Vec<Value> = Vec::new();
+    match kind.as_str() {
+        "step" => {
+            for p in parts {
+                let res = match m.rt.step(p) {
+                    Ok(()) => json!("ok"),
+                    Err(e) => json!(format!("err: {e}")),
+                };
+                calls.push(json!({"res": res, "obs": entry_obs(&m)}));
+            }
+        }
+        "async" => {
+            // one runner for all parts; the observation needs the runtime back, so the runner is re-created per
+            // part only when the case asks for it ("rebuild"); otherwise the state is read through the handle.
+            let rebuild = entry.get("rebuild").and_then(|v| v.as_bool()).unwrap_or(false);
+            if rebuild {
+                for p in parts {
+                    let (m2, res) = with_shared(m, |rc| {
+                        let mut runner = AsyncRuntimeRunner::new(rc.clone()).with_slice_cycles(slice);
+                        let r = runner.run_instructions(p);
+                        drop(runner);
+                        r
+                    })?;
+                    m = m2;
+                    let res = match res {
+                        Ok(s) => json!(["ok", s.instructions_executed, s.cycles_executed]),
+                        Err(e) => json!(format!("err: {e}")),
+                    };
+                    calls.push(json!({"res": res, "obs": entry_obs(&m)}));
+                }
+            } else {
+                let (m2, results) = with_shared(m, |rc| {
+                    let mut runner = AsyncRuntimeRunner::new(rc.clone()).with_slice_cycles(slice);
+                    let mut out = Vec::new();
+                    for p in &parts {
+                        let r = runner.run_instructions(*p);
+                        let (pc, ic, cyc) = {
+                            let rt = rc.borrow();
+                            (rt.state.pc() & 0xFFFFF, rt.instruction_count(), rt.cycle_count())
+                        };
+                        out.push((r, pc, ic, cyc));
+                    }
+                    drop(runner);
+                    out
+                })?;
+                m = m2;
+                let n = results.len();
+                for (i, (r, pc, ic, cyc)) in results.into_iter().enumerate() {
+                    let res = match r {
+                        Ok(s) => json!(["ok", s.instructions_executed, s.cycles_executed]),
+                        Err(e) => json!(format!("err: {e}")),
+                    };
+                    let obs = if i + 1 == n { entry_obs(&m) } else { json!({"pc": pc, "ic": ic, "cyc": cyc}) };
+                    calls.push(json!({"res": res, "obs": obs}));
+                }
+            }
+        }
+        other => return Err(format!("unknown entry kind {other}")),
+    }
+    Ok(json!({"calls": calls}))
+}
+
+fn entry_history(base: &Value, ops: &[Value]) -> Result<Vec<Value>, String> {
+    use sc62015_core::async_driver::{block_on, sleep_cycles, AsyncDriver};
+    use sc62015_core::{AsyncCpuHandle, AsyncDisplayTask, AsyncRuntimeRunner, AsyncTimerKeyboardTask};
+    let mut notes: Vec<Value> = Vec::new();
+    for op in ops {
+        let a = op.as_array().ok_or("history op must be an array")?;
+        let name = a.first().and_then(|v| v.as_str()).unwrap_or("");
+        match name {
+            "block_on_display" => {
+                let task = AsyncDisplayTask::new(u(&a[1]), driver_event(a.get(3)));
+                block_on(task.run_frames(u(&a[2])));
+                notes.push(json!([name, "done"]));
+            }
+            "block_on_sleep" => {
+                block_on(sleep_cycles(u(&a[1])));
+                notes.push(json!([name, "done"]));
+            }
+            "block_on_timer" => {
+                let m = create(base)?;
+                let cycles = u(&a[1]);
+                let (m, ()) = with_shared(m, |rc| {
+                    let task = AsyncTimerKeyboardTask::new(rc.clone());
+                    block_on(task.run_for(cycles));
+                })?;
+                notes.push(json!([name, m.rt.timer.irq_total]));
+            }
+            "driver" => {
+                let mut driver = AsyncDriver::with_clock(u(&a[1]));
+                let mut keep: Vec<SharedRt> = Vec::new();
+                for t in a.get(2).and_then(|v| v.as_array()).cloned().unwrap_or_default() {
+                    match t.get(0).and_then(|v| v.as_str()).unwrap_or("") {
+                        "display" => {
+                            let task = AsyncDisplayTask::new(u(&t[1]), driver_event(t.get(3)));
+                            let frames = u(&t[2]);
+                            driver.spawn(async move { task.run_frames(frames).await });
+                        }
+                        "cpu" => {
+                            let Machine { rt, .. } = create(base)?;
+                            let rc: SharedRt = std::rc::Rc::new(std::cell::RefCell::new(rt));
+                            keep.push(rc.clone());
+                            let n = u(&t[1]) as usize;
+                            driver.spawn(async move {
+                                let cpu = AsyncCpuHandle::new(rc);
+                                let _ = cpu.run_instructions(n, None).await;
+                            });
+                        }
+                        "timer" => {
+                            let Machine { rt, .. } = create(base)?;
+                            let rc: SharedRt = std::rc::Rc::new(std::cell::RefCell::new(rt));
+                            keep.push(rc.clone());
+                            let cycles = u(&t[1]);
+                            driver.spawn(async move {
+                                let task = AsyncTimerKeyboardTask::new(rc);
+                                task.run_for(cycles).await;
+                            });
+                        }
+                        other => return Err(format!("unknown driver task {other}")),
+                    }
+                }
+                let mut evs: Vec<Value> = Vec::new();
+                for b in a.get(3).and_then(|v| v.as_array()).cloned().unwrap_or_default() {
+                    let r = driver.run_for(u(&b));
+                    evs.push(json!(format!("{:?}", r.event)));
+                }
+                drop(driver); // whatever tasks / queued events are left go with it
+                drop(keep);
+                notes.push(json!([name, evs]));
+            }
+            "runner" => {
+                let m = create(base)?;
+                let slice = u(&a[1]);
+                let parts: Vec<usize> = a[2].as_array().map(|x| x.iter().map(|v| u(v) as usize).collect()).unwrap_or_default();
+                let (_m, okc) = with_shared(m, |rc| {
+                    let mut runner = AsyncRuntimeRunner::new(rc.clone()).with_slice_cycles(slice);
+                    let mut okc = 0;
+                    for p in parts {
+                        if runner.run_instructions(p).is_ok() {
+                            okc += 1;
+                        }
+                    }
+                    drop(runner);
+                    okc
+                })?;
+                notes.push(json!([name, okc]));
+            }
+            "step" => {
+                let mut m = create(base)?;
+                let r = m.rt.step(u(&a[1]) as usize).is_ok();
+                notes.push(json!([name, r]));
+            }
+            other => return Err(format!("unknown history op {other}")),
+        }
+    }
+    Ok(notes)
+}
+
+fn on_new_thread(f: impl FnOnce() -> Result<Value, String> + Send + 'static) -> Result<Value, String> {
+    let h = std::thread::Builder::new()
+        .stack_size(32 << 20)
+        .spawn(f)
+        .map_err(|e| format!("thread spawn: {e}"))?;
+    match h.join() {
+        Ok(r) => r,
+        Err(_) => Err("panic in case thread".to_string()),
+    }
+}
+
+fn entry_one(case: &Value) -> Value {
+    let Some(base) = case.get("base").cloned() else {
+        return json!({"err": "setup: no base"});
+    };
+    let entry = case.get("entry").cloned().unwrap_or(json!({}));
+    let ops: Vec<Value> = case.get("history").and_then(|v| v.as_array()).cloned().unwrap_or_default();
+    let (b1, e1) = (base.clone(), entry.clone());
+    let reference = match on_new_thread(move || entry_probe(&b1, &e1)) {
+        Ok(v) => v,
+        Err(e) => return json!({"err": format!("setup: reference: {e}")}),
+    };
+    let subject = on_new_thread(move || {
+        let notes = entry_history(&base, &ops)?;
+        let mut r = entry_probe(&base, &entry)?;
+        r["hist"] = json!(notes);
+        Ok(r)
+    });
+    match subject {
+        Ok(v) => json!({"ref": reference, "sub": v, "err": null}),
+        Err(e) => json!({"err": format!("setup: subject: {e}")}),
+    }
+}
+
 pub fn handle(verb: &str, req: &Value) -> Value {
     let cases = req.get("cases").and_then(|v| v.as_array()).cloned().unwrap_or_default();
     match verb {
         "c07_mem" => json!({"ok": true, "results": cases.iter().map(mem_one).collect::<Vec<_>>()}),
         "c07_conv" => json!({"ok": true, "results": cases.iter().map(conv_one).collect::<Vec<_>>()}),
+        "c07_entry" => json!({"ok": true, "results": cases.iter().map(entry_one).collect::<Vec<_>>()}),
         _ => crate::util::err(format!("machine.{verb} not implemented")),
     }
 }
